@@ -280,7 +280,8 @@ class Node:
         If `replace` is true, previous metatdata will be cleared.
         """
         if replace or self._meta is None:
-            self._meta = values.copy()
+            # `meta` is documented to be `None` if there is no metadata
+            self._meta = values.copy() or None
         else:
             self._meta.update(values)
 
